@@ -75,8 +75,90 @@ def run(rep, tier):
     lift_reg = f.edge_region(sw, lift_entry)
     emits = f.calls("Generator::emit")
 
+    # Private helpers of the generator that `call` delegates to are transparent: an instruction built unconditionally
+    # (on every path, outside a loop) by a non-recursive `Generator::*` helper counts as built at the call site.
+    def helper_of(cl):
+        nm = [n for n in cl.names() if "::Generator::" in n or n.startswith("crate::abi::Generator")]
+        if not nm:
+            return None
+        g = c.method("Generator", mir.norm(nm[0]).split("::")[-1], required=False)
+        if g is None or g is f or g.npath.split("::")[-1] in ("emit", "call", "lower", "lift", "write_to_memory", "read_from_memory"):
+            return None
+        return g
+
+    def helper_sites(g, variant, depth=2):
+        """(unconditional, conditional) construction sites of Instruction::<variant> inside helper g (transitively)"""
+        unc, cond = 0, 0
+        for bb, i, rv, s_ in g.aggregates("Instruction", variant):
+            if all(g.set_dominates({bb}, r) for r in g.returns()) and not g.in_cycle(bb):
+                unc += 1
+            else:
+                cond += 1
+        if depth > 0:
+            for cl in g.calls():
+                h = helper_of(cl)
+                if h is not None and h is not g:
+                    u2, c2 = helper_sites(h, variant, depth - 1)
+                    if all(g.set_dominates({cl.bb}, r) for r in g.returns()) and not g.in_cycle(cl.bb):
+                        unc += u2
+                        cond += c2
+                    else:
+                        cond += u2 + c2
+        return unc, cond
+    conditional_in_helper = []
+
     def sites(variant):
-        return [bb for bb, i, rv, s in f.aggregates("Instruction", variant)]
+        out = [bb for bb, i, rv, s in f.aggregates("Instruction", variant)]
+        for cl in f.calls():
+            g = helper_of(cl)
+            if g is None:
+                continue
+            u, cnd = helper_sites(g, variant)
+            out += [cl.bb] * u
+            if cnd:
+                conditional_in_helper.append((variant, g.npath, cl.bb))
+                out += [cl.bb] * cnd
+        return out
+
+    def calls_deep(pat, at_bb=None):
+        """calls matching pat in `call` itself, plus (for the helper called at at_bb) inside that helper, transitively"""
+        out = list(f.calls(pat))
+        for cl in f.calls():
+            g = helper_of(cl)
+            if g is None or (at_bb is not None and cl.bb != at_bb):
+                continue
+            stack, seen = [g], set()
+            while stack:
+                h = stack.pop()
+                if h.npath in seen:
+                    continue
+                seen.add(h.npath)
+                if h.calls(pat):
+                    out.append(cl)
+                for c2 in h.calls():
+                    h2 = helper_of(c2)
+                    if h2 is not None:
+                        stack.append(h2)
+        return out
+
+    def guards(bb):
+        """guard edges of bb; a switch on a bool local whose definitions are all constants (`matches!`, `a && b`) is
+        replaced by the guard edges of the definitions that store the taken value (one list per definition)."""
+        base = f.guard_edges(bb)
+        alts = []
+        for sw_, vals, o in base:
+            if o.get("kind") == "place" and "local" in o and not o.get("proj"):
+                consts = []
+                for (b_, i_, kind_, payload) in f.defs.get(o["local"], []):
+                    oo = f.origin(payload["o"]) if kind_ == "assign" and payload.get("k") == "use" else {}
+                    if oo.get("kind") != "const":
+                        consts = None
+                        break
+                    consts.append((b_, oo.get("v")))
+                if consts:
+                    want = vals != [0]
+                    alts.append([f.guard_edges(b_) for b_, v in consts if bool(v) == want])
+        return base, alts
 
     def emit_after(bb):
         """the emit call that consumes the instruction built in block bb (same block or next)"""
@@ -102,7 +184,7 @@ def run(rep, tier):
     # ---- R2.3
     def r3():
         term = sites("Return") + sites("AsyncTaskReturn")
-        rep.floor("R2.3", "terminal return-instruction sites in call", len(term), 6)
+        rep.floor("R2.3", "terminal return-instruction sites in call", len(term), 2)
         for entry, reg, nm in ((lower_entry, lower_reg, "LowerArgsLiftResults"), (lift_entry, lift_reg, "LiftArgsLowerResults")):
             here = [t for t in term if t in reg]
             rep.ob("R2.3", f"{nm}: every returning path emits a terminal Return/AsyncTaskReturn", bool(here) and
@@ -130,13 +212,16 @@ def run(rep, tier):
         gd = sites("GuestDeallocate")
         rep.ob("R2.4", "exactly one GuestDeallocate site (the parameter record is freed once)", len(gd) == 1, f"{len(gd)}", f.loc())
         for bb in gd:
-            ge = f.guard_edges(bb)
-            var_ok = False
-            for sw_, vals, o in ge:
-                if o.get("kind") == "discr" and "AbiVariant" in o.get("ty", ""):
-                    names = {o["vars"].get(v) for v in vals if v != "else"}
-                    if "else" not in vals and names and names <= {"GuestExport", "GuestExportAsync", "GuestExportAsyncStackful"}:
-                        var_ok = True
+            ge, alts = guards(bb)
+
+            def export_only(edges):
+                for sw_, vals, o in edges:
+                    if o.get("kind") == "discr" and "AbiVariant" in o.get("ty", ""):
+                        names = {o["vars"].get(v) for v in vals if v != "else"}
+                        if "else" not in vals and names and names <= {"GuestExport", "GuestExportAsync", "GuestExportAsyncStackful"}:
+                            return True
+                return False
+            var_ok = export_only(ge) or any(a and all(export_only(e) for e in a) for a in alts)
             ind_ok = any(".indirect_params" in field_of(o) and is_true_edge(vals) for _, vals, o in ge)
             sync_ok = any(o.get("kind") == "arg" and o.get("n") == a_async and is_false_edge(vals) for _, vals, o in ge) or \
                 any(o.get("kind") == "un" and o.get("op") == "Not" and o["a"].get("kind") == "arg" and o["a"].get("n") == a_async
@@ -146,8 +231,11 @@ def run(rep, tier):
             rep.ob("R2.4", "GuestDeallocate only for synchronous lifting", sync_ok, "", f.loc(bb))
             rep.ob("R2.4", "GuestDeallocate not in a loop, in the lifting direction", not f.in_cycle(bb) and bb in lift_reg, "", f.loc(bb))
             # the record freed has the size/align of the parameter record: same sizes().record(params) shape as the Malloc site
-            rec = [x for x in f.calls("SizeAlign::record") if f.dominates(x.bb, bb)]
+            rec = [x for x in calls_deep("SizeAlign::record", at_bb=bb) if f.dominates(x.bb, bb) or x.bb == bb]
             rep.ob("R2.4", "the freed size/alignment comes from sizes().record(params)", bool(rec), "", f.loc(bb))
+        rep.ob("R2.4", "the record free is unconditional inside the helper that performs it (guards are decided in `call`)",
+               not [x for x in conditional_in_helper if x[0] == "GuestDeallocate"],
+               f"{[x[1] for x in conditional_in_helper if x[0] == 'GuestDeallocate']}", f.loc())
         ml = sites("Malloc")
         rep.ob("R2.4", "exactly one Malloc site", len(ml) == 1, f"{len(ml)}", f.loc())
         for bb in ml:
@@ -264,9 +352,15 @@ def run(rep, tier):
                 return render(e["args"][1])
             if k == "mcall" and e["method"] == "take" and len(e["args"]) == 1:
                 return render(e["args"][0])
-            if k == "macro" and synq.short(e["name"]) == "vec" and e.get("tokens"):
-                m = re.match(r".*;\s*(.+)$", e["tokens"])
-                return m.group(1).strip() if m else None
+            if k == "macro" and synq.short(e["name"]) == "vec":
+                if e.get("tokens"):
+                    m = re.match(r".*;\s*(.+)$", e["tokens"])
+                    return m.group(1).strip() if m else None
+                st = e.get("stmts") or []
+                # `vec![x; n]` is dumped as the two statements `x;` and `n`
+                if len(st) == 2 and st[0].get("semi") and not st[1].get("semi") and st[1].get("k") == "expr_stmt":
+                    return render(st[1]["e"])
+                return None
             if k == "repeat":
                 return render(e["len"])
             return None
@@ -274,9 +368,29 @@ def run(rep, tier):
         rep.ob("R2.7", "flat_types: the flat buffer holds exactly `limit` values (one more would be passed flat)",
                c_ == L, f"capacity expression is `{c_}`, the limit is `{L}`", f.loc(news[0]))
         pf = synq.method_calls(f.body, "push_flat")
-        rep.ob("R2.7", "flat_types: None is returned exactly when push_flat overflows that buffer",
-               len(pf) == 1 and any(m["method"] == "then_some" and any(x is pf[0] for x in synq.walk(m["recv"]))
-                                    for m in synq.method_calls(f.body, "then_some")), "", f.loc())
+        # accepted shapes: `push_flat(..).then_some(v)`; `if !push_flat(..) { return None; } Some(v)`;
+        # `if push_flat(..) { Some(v) } else { None }`
+        shape = None
+        if len(pf) == 1:
+            if any(m["method"] == "then_some" and any(x is pf[0] for x in synq.walk(m["recv"]))
+                   for m in synq.method_calls(f.body, "then_some")):
+                shape = "then_some"
+            for n in synq.walk(f.body):
+                if n.get("k") != "if":
+                    continue
+                c = n["cond"]
+                neg = c.get("k") == "unary" and c["op"] == "!" and c["e"] is pf[0]
+                pos = c is pf[0]
+                then = render(n["then"]).strip("{ };")
+                els = render(n.get("else")).strip("{ };") if n.get("else") else None
+                tail = f.body["stmts"][-1] if f.body.get("stmts") else None
+                tail_s = render(tail.get("e")) if tail and tail.get("k") == "expr_stmt" and not tail.get("semi") else ""
+                if neg and then in ("return None", "None") and (els is None and tail_s.startswith("Some(") or (els or "").startswith("Some(")):
+                    shape = "early return None"
+                if pos and then.startswith("Some(") and els in ("None", "return None"):
+                    shape = "if/else"
+        rep.ob("R2.7", "flat_types: None is returned exactly when push_flat overflows that buffer", shape is not None,
+               f"{len(pf)} push_flat call(s); shape {shape}", f.loc())
     rep.guard("R2.7", "flat buffer capacity", r7)
 
 
@@ -286,7 +400,20 @@ def run(rep, tier):
         render = synq.render
         m0 = synq.find_match(fcall.body, "LiftLower::")
         lift_arm = synq.arm_for(m0, "LiftLower::LiftArgsLowerResults")
+        # bodies of private Generator helpers the lifting arm delegates to (transitively, non-recursive walkers excluded)
+        gens = {g.name: g for g in synq.all_fns("crates/core/src/abi.rs") if g.self_ty == "Generator" and g.body is not None}
+        skip = {"emit", "call", "lower", "lift", "write_to_memory", "read_from_memory", "deallocate", "deallocate_indirect"}
+        helper_bodies, todo, seen_h = [], [lift_arm.body], set()
+        while todo:
+            nd = todo.pop()
+            for mc in synq.method_calls(nd):
+                if render(mc["recv"]) == "self" and mc["method"] in gens and mc["method"] not in skip and mc["method"] not in seen_h:
+                    seen_h.add(mc["method"])
+                    helper_bodies.append(gens[mc["method"]].body)
+                    todo.append(gens[mc["method"]].body)
         getargs = [n for nm, n in synq.constructed(lift_arm.body, ["GetArg"])]
+        for hb in helper_bodies:
+            getargs += [n for nm, n in synq.constructed(hb, ["GetArg"])]
         rep.floor("R2.8", "GetArg sites in the lifting direction", len(getargs), 4)
         # (a) the return pointer of an import is the LAST core parameter: the arm that writes func.result through a
         #     pointer obtained from GetArg uses nth = sig.params.len() - 1
@@ -370,9 +497,40 @@ def run(rep, tier):
         rep.ob("R2.9", "async: the result goes to memory exactly when its flattening overflowed (`results.is_none()`)", ok,
                f"{[render(t) for t in tup]}", fcall.loc(tup[0]) if tup else fcall.loc())
         ptr = [n for nm, n in synq.constructed(lift_arm.body, ["AsyncTaskReturn"])]
-        rep.floor("R2.9", "AsyncTaskReturn sites in the lifting direction", len(ptr), 3)
+        rep.floor("R2.9", "AsyncTaskReturn sites in the lifting direction", len(ptr), 1)
         fallback = [c_ for c_ in synq.method_calls(lift_arm.body, "unwrap_or") if "as_deref" in render(c_["recv"])]
-        rep.ob("R2.9", "async export: an overflowed result is announced as exactly one pointer", len(fallback) == 1 and
-               render(fallback[0]["args"][0]).replace(" ", "") in ("&[WasmType::Pointer]",), f"{[render(c_) for c_ in fallback]}",
-               fcall.loc(fallback[0]) if fallback else fcall.loc())
+        lets = {nm: init for nm, init, st in synq.bindings(lift_arm.body) if init is not None and st["pat"].get("k") == "p_ident"}
+
+        def unblock(e):
+            while e is not None and e.get("k") == "block" and len(e["stmts"]) == 1 and e["stmts"][0].get("k") == "expr_stmt":
+                e = e["stmts"][0]["e"]
+            return e
+
+        def alts(e, cond=None, depth=0):
+            """possible values of the fallback expression with the condition they are chosen under"""
+            e = unblock(e)
+            if e is None or depth > 4:
+                return [("?", cond)]
+            if e.get("k") == "path" and e["path"] in lets:
+                return alts(lets[e["path"]], cond, depth + 1)
+            if e.get("k") == "if" and e.get("else") is not None:
+                c = e["cond"]
+                while c.get("k") == "path" and c["path"] in lets:
+                    c = lets[c["path"]]
+                import json as _json
+                txt = render(c) + " " + " ".join(sorted(set(re.findall(r"GuestImport\w*|GuestExport\w*", _json.dumps(c)))))
+                return alts(e["then"], txt, depth + 1) + alts(e["else"], "!(" + txt + ")", depth + 1)
+            return [(render(e).replace(" ", ""), cond)]
+        vals = [v for c_ in fallback for v in alts(c_["args"][0])]
+        ok = bool(vals) and any(v == "&[WasmType::Pointer]" for v, _ in vals)
+        for v, cond in vals:
+            if v == "&[WasmType::Pointer]":
+                # the pointer must be what every export gets: the only condition allowed to take it away is import-ness
+                ok = ok and (cond is None or "GuestImport" in cond)
+            elif v == "&[]":
+                ok = ok and cond is not None and "GuestImport" in cond and not cond.startswith("!(")
+            else:
+                ok = False
+        rep.ob("R2.9", "async export: an overflowed result is announced as exactly one pointer", ok,
+               f"{[(v, c) for v, c in vals]}", fcall.loc(fallback[0]) if fallback else fcall.loc())
     rep.guard("R2.9", "task.return parameters", r9)
